@@ -175,8 +175,10 @@ impl<S: Clone + Debug> SymbolTable<S> {
     }
 
     pub fn parent(&self, nx: SymbolIndex) -> Option<SymbolIndex> {
-        let mut edges = self.graph.edges_directed(nx, Direction::Incoming);
-        edges.next().map(|edge| edge.source())
+        // The edge a symbol was inserted with is its oldest incoming edge (edges are listed newest first): edges that were
+        // added later by 'export' make the symbol visible elsewhere, but they do not change the scope it was defined in
+        let edges = self.graph.edges_directed(nx, Direction::Incoming);
+        edges.last().map(|edge| edge.source())
     }
 
     pub fn child(&self, nx: SymbolIndex, id: &Identifier) -> Option<SymbolIndex> {
